@@ -101,7 +101,7 @@ def run(run, tier, seed):
             else:
                 raw[f["off"]] ^= 1 << f["bit"]
             open(dpath, "wb").write(bytes(raw))
-            for cmd in ("nk", "align", "merge"):
+            for cmd in ("nk", "align", "merge", "merge2"):
                 if cmd == "nk":
                     rc, so, se = vlib.ska_cli(["nk", "--full-info", dpath])
                     same_out = so == ref_out[name][0]
@@ -112,7 +112,9 @@ def run(run, tier, seed):
                     mo = os.path.join(sb.dir, "mergeout")
                     if os.path.exists(mo + ".skf"):
                         os.remove(mo + ".skf")
-                    rc, so, se = vlib.ska_cli(["merge", dpath, files[name], "-o", mo])
+                    # the damaged copy as first input, and as a later input (loaded on another code path)
+                    order = [dpath, files[name]] if cmd == "merge" else [files[name], dpath]
+                    rc, so, se = vlib.ska_cli(["merge"] + order + ["-o", mo])
                     # merging a (possibly benign) copy with the original: must fail or equal merge(original, original)
                     if rc == 0:
                         mo2 = os.path.join(sb.dir, "mergeref")
